@@ -34,6 +34,23 @@ void verif_tg_wait(verif_task_group *g)
 }
 void verif_tg_dtor(verif_task_group *g) { __CPROVER_assert(!g->pending, "TASKGROUP destroyed while its task has not finished (tbb::missing_wait)"); }
 """
+INT_STUBS = """
+/* ASSUMED model of the enkiTS scheduler interface used by TaskSys.h */
+void *g_task; unsigned g_sched_calls, g_void_calls;
+void voidfn_call(VoidFn *f) { g_void_calls += (*(char *)f == 0 ? 1 : 1); /* reads the closure object: it must still be alive */ }
+void detail_scheduleTaskInternal__Taskp(Task *task) { g_task = task; g_sched_calls++; }
+"""
+
+
+def internal_harness(U_, spec, f):
+    L = ["void h_%s(void)\n{" % f.cname, "  verif_lib_anchor(); __verif_exc = 0;", "  VoidFn the_fn;", "  g_void_calls = 0; g_task = 0; g_sched_calls = 0;",
+         "  sched_schedule(the_fn);",
+         "  /* the worker thread, after schedule() has returned: run the task set the scheduler was given */",
+         "  if (g_task != 0 && __verif_exc == 0) { run_task((Task *)g_task); __CPROVER_assert(g_void_calls == 1, \"the scheduled function is executed exactly once by the worker\"); }",
+         "  __CPROVER_assert(0, \"VERIF_CANARY reachable end of harness\");\n}"]
+    return "\n".join(L) + "\n", []
+
+
 G = ["g_rlive", "g_rctors", "g_rdtors", "g_user_calls", "g_void_calls", "g_rmoved"]
 
 
@@ -132,14 +149,22 @@ def units():
         "destroying_an_AsyncTask_first_waits_for_its_task": "g_tg_waits == OLD(g_tg_waits) + 1 && g_user_calls == 1",
         "the_result_is_destroyed_exactly_once": "g_rlive == 0 && g_rdtors == OLD(g_rdtors) + 1"})
     T.fn("at_finished", pre_call=tstate, requires=TINV, ensures={"finished_true_implies_the_complete_value_is_there": "RET == ($0->jobFinished.v != 0) && IMP(RET, $0->retValue.v == g_user_v && g_rlive != 0)"})
-    return [U, T]
+    # ---------------- INTERNAL (enkiTS) backend: schedule() hands a heap-allocated task set to the scheduler, which runs it later
+    I = Unit("c02_internal", "units/c02_async.cpp", defines=["RKCOMMON_TASKING_INTERNAL"], stubs=INT_STUBS,
+             opts=dict(stub_bodies=["voidfn_call", "detail_scheduleTaskInternal__Taskp"], only=["sched_schedule", "voidfn_call", "run_task"], param_lifetime=True,
+                       virtual_resolve={"enki::ITaskSet::ExecuteRange": r"schedule_internal\((?!TASK_T).*\)::LocalTask::ExecuteRange$"}))
+    I.stub("scheduleTaskInternal / enki::ITaskSet", "ASSUMED model of the enkiTS scheduler: scheduleTaskInternal(task) keeps the pointer; the task set's ExecuteRange is invoked exactly once, later, from a worker -- in the harness after schedule() has returned and its frame is gone")
+    I.fn("sched_schedule", harness=internal_harness, harness_calls=["run_task"], requires=["g_void_calls == 0 && g_task == 0"], assigns=["g_void_calls", "g_task", "g_sched_calls"], ensures={
+        "schedule_hands_exactly_one_task_to_the_scheduler": "g_task != 0 && g_sched_calls == 1",
+        "nothing_has_run_synchronously": "g_void_calls == 0"})
+    return [U, T, I]
 
 
 META = dict(
-    technique='CBMC 6.11 function contracts (dfcc) on extracted C; probe result type with ghost liveness; std::function and tbb::task_group reference models',
+    technique='CBMC 6.11 function contracts (dfcc) on extracted C; probe result type with ghost liveness; std::function, tbb::task_group and enkiTS hand-off reference models',
     level="proof",
     level_text="Sequential core of schedule()/AsyncTask with a probe result type (special members check liveness of the task's result storage) and a probe callable (execution counter), std::function as a closed-universe model: under the synchronous (Debug) backend AsyncTask's constructor is proved to execute the function exactly once, to leave the result member a live object holding exactly the returned value, constructed once, with finished() implying the result is complete; get() yields the stored value without consuming it; the destructor destroys the result exactly once; schedule() runs the callable exactly once.",
-    level_note="NOT decided: 'eventually', every real schedule/interleaving, TBB task_arena/task_group, detached std::thread, std::packaged_task/std::future internals (async()), the internal enkiTS backend and the self-deleting LocalTask. Contracts are sequential; those clauses are assumptions.",
+    level_note="NOT decided: 'eventually', every real schedule/interleaving, TBB task_arena/task_group, detached std::thread, std::packaged_task/std::future internals (async()), the enkiTS scheduler itself (AsyncTask under the internal backend). Contracts are sequential; those clauses are assumptions. For schedule() under the INTERNAL backend the hand-off is checked: schedule_impl / schedule_internal and the self-deleting LocalTask are extracted, scheduleTaskInternal is a recording model, and the harness plays the worker AFTER schedule() has returned (by-value parameters are frame-local objects whose lifetime the verifier ends on return): the task set runs the function exactly once on a closure object that is still alive, then deletes itself.",
     assumptions=["std::function closed-universe model (lib/stdlib.py)", "synchronous Debug backend semantics for the claimed obligations"],
-    unverified=["async() / std::future", "schedule() under TBB/OpenMP/internal backends", "destruction waits under real concurrency", "task memory not touched after release (internal backend)"],
+    unverified=["async() / std::future", "schedule() under the TBB / OpenMP backends (task_arena::enqueue, detached std::thread)", "destruction waits under real concurrency", "AsyncTask under the internal backend"],
 )
